@@ -210,6 +210,118 @@ m('c08-twkb-ring-close-without-guard', 'C08', 'caught', 'geom/twkb_parser.go',
 m('c08-quiet-error-message', 'C08', 'quiet', 'geom/wkb_parser.go',
 '''		return wkbSyntaxError{fmt.Sprintf("invalid byte order: %#x", b)}''', '''		return wkbSyntaxError{fmt.Sprintf("bad byte order marker %d", b)}''')
 
+# ---- benign changes that touch the seams (must stay quiet)
+m('c10-quiet-correct-sync-pool', 'C10', 'quiet', 'geom/float_helpers.go',
+'''func appendFloat(dst []byte, f float64) []byte {
+	return strconv.AppendFloat(dst, f, 'f', -1, 64)
+}''', '''var floatBufPool = sync.Pool{New: func() interface{} { b := make([]byte, 0, 32); return &b }}
+
+func appendFloat(dst []byte, f float64) []byte {
+	bp := floatBufPool.Get().(*[]byte)
+	b := strconv.AppendFloat((*bp)[:0], f, 'f', -1, 64)
+	dst = append(dst, b...) // copied out before the buffer goes back
+	*bp = b[:0]
+	floatBufPool.Put(bp)
+	return dst
+}''')
+m('c10-quiet-correct-locked-cache', 'C10', 'quiet', 'geom/alg_intersects.go',
+'''	bulk := make([]rtree.BulkItem, len(lines1))
+	for i, ln := range lines1 {
+		bulk[i] = rtree.BulkItem{
+			Box:      ln.box(),
+			RecordID: i,
+		}
+	}
+	tree := rtree.BulkLoad(bulk)
+''', '''	tree := cachedLineIndex(lines1)
+''')
+m('c10-quiet-deterministic-goroutines', 'C10', 'quiet', 'geom/type_multi_polygon.go',
+'''	var (
+		bestWidth float64
+		bestPoint Point
+	)
+	for i := 0; i < m.NumPolygons(); i++ {
+		poly := m.PolygonN(i)
+		point, bisectorWidth := pointOnAreaSurface(poly)
+		if point.IsEmpty() {
+			continue
+		}
+		if bisectorWidth > bestWidth {
+			bestWidth = bisectorWidth
+			bestPoint = point
+		}
+	}
+	return bestPoint''', '''	n := m.NumPolygons()
+	points := make([]Point, n)
+	widths := make([]float64, n)
+	if n >= 32 {
+		// large inputs: compute per-polygon candidates in parallel, merge in index order
+		var wg sync.WaitGroup
+		for w := 0; w < 4; w++ {
+			wg.Add(1)
+			go func(w int) {
+				defer wg.Done()
+				for i := w; i < n; i += 4 {
+					points[i], widths[i] = pointOnAreaSurface(m.PolygonN(i))
+				}
+			}(w)
+		}
+		wg.Wait()
+	} else {
+		for i := 0; i < n; i++ {
+			points[i], widths[i] = pointOnAreaSurface(m.PolygonN(i))
+		}
+	}
+	var (
+		bestWidth float64
+		bestPoint Point
+	)
+	for i := 0; i < n; i++ {
+		if points[i].IsEmpty() {
+			continue
+		}
+		if widths[i] > bestWidth {
+			bestWidth = widths[i]
+			bestPoint = points[i]
+		}
+	}
+	return bestPoint''')
+m('c11-quiet-iterative-rangesearch', 'C11', 'quiet', 'rtree/rtree.go',
+'''	if err := recurse(t.root); err != nil && !errors.Is(err, Stop) {
+		return err
+	}
+	return nil''', '''	_ = recurse
+	stack := []*node{t.root} // per call: nothing shared
+	type frame struct {
+		n *node
+		i int
+	}
+	frames := []frame{{t.root, 0}}
+	stack = stack[:0]
+	for len(frames) > 0 {
+		f := &frames[len(frames)-1]
+		if f.i >= f.n.numEntries {
+			frames = frames[:len(frames)-1]
+			continue
+		}
+		e := f.n.entries[f.i]
+		f.i++
+		if !overlap(e.box, box) {
+			continue
+		}
+		if e.child == nil {
+			if err := callback(e.recordID); err != nil {
+				if errors.Is(err, Stop) {
+					return nil
+				}
+				return err
+			}
+		} else {
+			frames = append(frames, frame{e.child, 0})
+		}
+	}
+	return nil''')
+
 os.makedirs(out, exist_ok=True)
 index = []
 for name, prop, expect, file, old, new in M:
@@ -229,6 +341,48 @@ for name, prop, expect, file, old, new in M:
 }''').replace('	return &RTree{root, len(items)}','	return &RTree{root: root, count: len(items)}'))
         b = open(os.path.join(wt, 'rtree/bulk.go')).read()
         open(os.path.join(wt, 'rtree/bulk.go'), 'w').write(b.replace('	return &RTree{root, len(items)}','	return &RTree{root: root, count: len(items)}'))
+    if name == 'c10-quiet-correct-sync-pool':
+        s2 = s2.replace('import (\n\t"math"\n\t"strconv"\n)', 'import (\n\t"math"\n\t"strconv"\n\t"sync"\n)')
+    if name == 'c10-quiet-deterministic-goroutines':
+        s2 = s2.replace('\t"fmt"\n\t"unsafe"\n', '\t"fmt"\n\t"sync"\n\t"unsafe"\n')
+    if name == 'c10-quiet-correct-locked-cache':
+        s2 = s2.replace('import (\n\t"fmt"\n', 'import (\n\t"fmt"\n\t"sync"\n')
+        s2 += '''
+
+// lineIndexCache remembers the most recently built line index; the key is the
+// complete list of lines (compared element by element), so a hit is always for
+// identical input. The tree is read-only once built.
+var lineIndexCache struct {
+	mu    sync.Mutex
+	lines []line
+	tree  *rtree.RTree
+}
+
+func cachedLineIndex(lines []line) *rtree.RTree {
+	c := &lineIndexCache
+	c.mu.Lock()
+	defer c.mu.Unlock()
+	if c.tree != nil && len(c.lines) == len(lines) {
+		same := true
+		for i := range lines {
+			if lines[i] != c.lines[i] {
+				same = false
+				break
+			}
+		}
+		if same {
+			return c.tree
+		}
+	}
+	bulk := make([]rtree.BulkItem, len(lines))
+	for i, ln := range lines {
+		bulk[i] = rtree.BulkItem{Box: ln.box(), RecordID: i}
+	}
+	c.lines = append([]line(nil), lines...)
+	c.tree = rtree.BulkLoad(bulk)
+	return c.tree
+}
+'''
     if name == 'c11-error-rewrapped':
         s2 = s2.replace('import (\n\t"errors"\n)', 'import (\n\t"errors"\n\t"fmt"\n)')
     open(path, 'w').write(s2)
